@@ -82,7 +82,7 @@ def check(run: Run, prog: Program, model: Model, tier: str) -> None:
     for c, (site, why) in sorted(bad.items()):
         run.violated("ONLY-ACCEPT", c, site, why,
                      witness="a CustomSchema forwarding to that built-in, placed as this member, behaves differently from the built-in")
-    run.floor("ONLY-ACCEPT", 20)
+    run.floor("ONLY-ACCEPT", 10)
 
     _dispatch_chain(run, prog, model)
     _entries(run, prog, model)
@@ -206,6 +206,18 @@ def _dispatch_chain(run: Run, prog: Program, model: Model) -> None:
         else:
             run.holds("DISPATCH-CHAIN", construct, e.loc(prog),
                       f"{hook_name}(visitor, {', '.join(n + '=' + n for n in names)}, **kwargs)", nontrivial=True)
+    # the fallback `visit` of a shared visitor singleton must not answer from state left by earlier calls
+    from .c17 import hidden_state
+    from ..report import Run as _Run
+    for vis in ("Validator", "Substitutor", "Representor", "Generator"):
+        sub = _Run(run.prop, "sub")
+        hidden_state(sub, prog, model.visitors[vis], "DISPATCH-STATE")
+        hits = [o for o in sub.obs if o.status == "VIOLATED" and f".visit:" in o.construct]
+        for o in hits:
+            run.violated("DISPATCH-STATE", o.construct, o.site, o.detail + " - a custom member can be answered from a cache instead of its hook",
+                         witness="a freed custom schema's printed form / result is returned for a new custom schema at the same address or key")
+        if not hits:
+            run.holds("DISPATCH-STATE", f"{vis}.visit", model.visitors[vis].loc, "no state consulted before dispatching to the hook", nontrivial=False)
     run.floor("DISPATCH-CHAIN", 8)
 
 
@@ -303,4 +315,10 @@ MUTANTS += [
 MUTANTS += [
     {"name": "SubstitutorValidator answers `...` for custom members itself", "rule": "DISPATCH-CHAIN",
      "edits": [("d42/substitution/_validator.py", "class SubstitutorValidator(Validator):\n", "class SubstitutorValidator(Validator):\n    def visit(self, schema: Any, *, value: Any = Nil, path: Nilable[PathHolder] = Nil, **kwargs: Any) -> ValidationResult:\n        if is_ellipsis(value):\n            return self._validation_result_factory()\n        return super().visit(schema, value=value, path=path, **kwargs)\n\n")]},
+]
+
+MUTANTS += [
+    {"name": "custom representations cached by id(schema)", "rule": "DISPATCH-STATE",
+     "edits": [(REP, "            return cast(str, represent_method(self, indent=indent, **kwargs))", "            key = (id(schema), indent)\n            if key not in self._cache:\n                self._cache[key] = cast(str, represent_method(self, indent=indent, **kwargs))\n            return self._cache[key]"),
+               (REP, "        self._indent = indent\n", "        self._indent = indent\n        self._cache: dict = {}\n")]},
 ]
